@@ -79,6 +79,9 @@ func singleLineNoPositions(pos string) bool {
 	return len(ps) == 0
 }
 
+// queries over the nested rows of renderNested
+var nestedQueries = []string{"items", "items[0]", "items[1]", "item", "items{}", "items[]", "items{c2}", "items[0].c2", "e", "e[0]", "e{}", "e[]", "e[0].x", "s", "s[]", "s[0]", "s{}", "n", "n.k", "n.k[]", "n.k{}", "n.k[0]", "item.c2", "{items}", "{e}", "{c1, items as x}", "data.items", "data[0].items", "data[].items", "data{items}", "nosuch", "c1", ""}
+
 var jsonQueries = []string{"", "{}", "[]", "data", "data[0]", "data{}", "data[]", "data.rows", "[0]", "[1].c1", "{c1, c2 as x}", "{c1}", "data{c1 as `a b`}", "`data`", "'data'", "c1", "nosuch", "nosuch{}", "[99]", "[].c1", "data[].c2", "{c1, c1}", "{nosuch}",
 	"[", "{", "a..b", "a[", "'unterminated", "[-1]", "[99999999999999999999]", "{a as}", "{,}", ".", "data.", "[0][0][0]", "{}{}", "[]{}", "data[]{}", "1", "\x00", "{c1 as ''}"}
 var fileExt = map[string]string{"CSV": ".csv", "TSV": ".tsv", "LTSV": ".ltsv", "FIXED": ".txt", "JSON": ".json", "JSONL": ".jsonl"}
@@ -301,6 +304,37 @@ func renderTable(t *rapid.T, format string, delim string, header []string, rows 
 	return b.Bytes(), ""
 }
 
+// renderNested writes JSON / JSON Lines rows whose members are arrays (empty,
+// of scalars, of objects) and objects, the shapes a json-query can select.
+func renderNested(t *rapid.T, format string) []byte {
+	arr := func(label string) string {
+		return fw.PickU(t, label, []string{"[]", "[]", "[{\"c2\":\"a\"}]", "[{\"c2\":\"a\"},{\"c2\":\"b\",\"c3\":1}]", "[1,2]", "[[]]", "[{}]", "[null]", "null", "{}", "1", "[{\"c2\":[]}]"})
+	}
+	row := func() string {
+		return fmt.Sprintf("{\"c1\":%d,\"items\":%s,\"item\":%s,\"e\":%s,\"s\":%s,\"n\":{\"k\":%s}}", fw.Range(t, "c1", 0, 3), arr("items"),
+			fw.PickU(t, "item", []string{"{\"c2\":\"x\"}", "{}", "null", "[]", "\"s\""}), arr("e"), fw.PickU(t, "s", []string{"[1,2]", "[]", "[\"a\"]"}), arr("k"))
+	}
+	n := fw.Range(t, "nestedRows", 0, 4)
+	var rows []string
+	for i := 0; i < n; i++ {
+		rows = append(rows, row())
+	}
+	if format == "JSONL" {
+		return []byte(strings.Join(rows, "\n") + "\n")
+	}
+	switch fw.Uniform(t, "nestedWrap", 3) {
+	case 0:
+		return []byte("[" + strings.Join(rows, ",") + "]")
+	case 1:
+		return []byte("{\"data\":[" + strings.Join(rows, ",") + "]}")
+	default:
+		if len(rows) == 0 {
+			return []byte("{}")
+		}
+		return []byte(rows[0])
+	}
+}
+
 var strayBytes = []string{"\r", "\n", "\x00", "\"", ",", "\t", ":", "{", "}", "[", "]", " ", "\\", "\"\"", "\r\n", "'"}
 var badUTF8 = []string{"\xff", "\xc3", "\xed\xa0\x80", "\xf8\x88\x80\x80\x80", "\xe3\x81", "\xfe\xff", "\x80", "\xc0\xaf", "\x93\xfa\x96\x7b"}
 var boms = []string{"\xef\xbb\xbf", "\xff\xfe", "\xfe\xff", "\xef\xbb", "\xef\xbb\xbf\xef\xbb\xbf"}
@@ -431,7 +465,15 @@ func genLoad(t *rapid.T) loadCase {
 	}
 
 	fixedPos := ""
-	switch k := fw.Weighted(t, "origin", []int{50, 22, 12, 16}); k {
+	originWeights := []int{50, 22, 12, 16, 0}
+	if c.Format == "JSON" || c.Format == "JSONL" {
+		originWeights = []int{35, 15, 10, 15, 25}
+	}
+	switch k := fw.Weighted(t, "origin", originWeights); k {
+	case 4: // rows that hold empty / scalar / object arrays and nested objects, with a query that selects them
+		c.Data = renderNested(t, c.Format)
+		c.JQ = fw.PickU(t, "nestedQuery", nestedQueries)
+		c.Origin = "nested"
 	case 0: // structured table, rendered in the format
 		ncol := fw.Range(t, "ncol", 1, 5)
 		nrow := fw.Range(t, "nrow", 0, 6)
